@@ -1,7 +1,157 @@
-import TuModel.Model.ByteTok
-import TuModel.Model.CharTok
-import TuModel.Model.Bpe
+/-
+  C01 — byte and character tokenizers encode every character faithfully and losslessly.
+  Models: `Tu.byteTokenize` / `Tu.byteDetok` (Model/ByteTok.lean), `Tu.charTokenize` / `Tu.charDetok`
+  (Model/CharTok.lean), `Tu.splitInput` (Model/Special.lean).
+-/
+import TuModel.Lemmas.SpecialL
 namespace Tu.C01
 open Tu
-theorem placeholder_uniq_nil : uniq [] = [] := rfl
+
+/-! ### byte tokenizer -/
+
+/-- the shape of the id sequence: prefix ids, then the pieces of the text — regular pieces as their
+bytes, every special-token occurrence as its single id — then suffix ids -/
+theorem byteTokenize_shape (cfg : ByteCfg) (s : List Nat) (ign : Bool) :
+    byteTokenize cfg s ign =
+      cfg.sp.prefixIds ++ (splitInput cfg.sp s ign).flatMap (pieceIds cfg.sp) ++ cfg.sp.suffixIds := rfl
+
+/-- the pieces are exactly the text (for any alternation order of the special-token pattern) -/
+theorem pieces_are_text (sp : Special) (s : List Nat) (ign : Bool) :
+    (splitInput sp s ign).flatMap Piece.bytes = s := splitInput_concat sp s ign
+
+/-- without special-token parsing the text ids are exactly the UTF-8 bytes -/
+theorem byteTokenize_ignore (cfg : ByteCfg) (s : List Nat) :
+    byteTokenize cfg s true = cfg.sp.prefixIds ++ s ++ cfg.sp.suffixIds := by
+  simp [byteTokenize, splitInput, pieceIds]
+
+/-- regular ids are bytes (`< 256`), special ids lie at or above the offset 256 -/
+theorem pieceIds_range (sp : Special) (ho : 256 ≤ sp.offset) (s : List Nat) (ign : Bool) (hs : ∀ x ∈ s, x < 256)
+    (p : Piece) (hp : p ∈ splitInput sp s ign) :
+    match p with
+    | .regular r => ∀ id ∈ pieceIds sp (.regular r), id < 256
+    | .special i b => pieceIds sp (.special i b) = [sp.offset + i] ∧ sp.tokens[i]? = some b := by
+  cases p with
+  | regular r => intro id hid; exact hs id (splitInput_regular_mem sp s ign r hp id (by simpa [pieceIds] using hid))
+  | special i b => exact ⟨rfl, splitInput_special sp s ign i b hp⟩
+
+/-- **decoding the text ids with special tokens kept returns the original bytes** -/
+theorem byteDetok_text (cfg : ByteCfg) (ho : 256 ≤ cfg.sp.offset) (s : List Nat) (ign : Bool)
+    (hs : ∀ x ∈ s, x < 256) :
+    byteDetokBytes cfg.sp false ((splitInput cfg.sp s ign).flatMap (pieceIds cfg.sp)) = some s := by
+  rw [byteDetokBytes_pieces cfg.sp ho _ (fun r hr x hx => hs x (splitInput_regular_mem _ _ _ r hr x hx))
+    (fun i b hb => splitInput_special _ _ _ i b hb), splitInput_concat]
+
+/-- **decoding the full id sequence with special tokens kept returns prefix tokens, the original
+text, suffix tokens** — for every configuration accepted by the constructor -/
+theorem byteDetok_tokenize_keep (cpGroups : Bool) (tokens : List (List Nat)) (padTo : Option Nat) (pad : List Nat)
+    (pre suf : List (List Nat)) (cfg : ByteCfg) (hcfg : mkByteCfg cpGroups tokens padTo pad pre suf = some cfg)
+    (s : List Nat) (ign : Bool) (hs : ∀ x ∈ s, x < 256) :
+    byteDetokBytes cfg.sp false (byteTokenize cfg s ign) =
+      some (specialBytes cfg.sp cfg.sp.prefixIds ++ s ++ specialBytes cfg.sp cfg.sp.suffixIds) := by
+  unfold mkByteCfg at hcfg
+  cases hm : mkSpecial 256 (byteSpecialTokens tokens padTo) pad pre suf with
+  | none => simp [hm] at hcfg
+  | some sp =>
+    simp [hm] at hcfg; subst hcfg
+    obtain ⟨ho, _, hp, hsf, _⟩ := mkSpecial_ids hm
+    have ho' : 256 ≤ sp.offset := by omega
+    simp only [byteTokenize, byteDetokBytes_append]
+    rw [byteDetokBytes_specials sp ho' _ hp, byteDetokBytes_specials sp ho' _ hsf]
+    have := byteDetok_text { codePointGroups := cpGroups, sp := sp } ho' s ign hs
+    simp only at this
+    rw [this]
+    simp
+
+/-- the decoded bytes are the input bytes, so a valid UTF-8 input decodes successfully to itself
+(no prefix / suffix configured) -/
+theorem byte_roundtrip (cfg : ByteCfg) (ho : 256 ≤ cfg.sp.offset) (hp : cfg.sp.prefixIds = []) (hsf : cfg.sp.suffixIds = [])
+    (s : List Nat) (ign : Bool) (hs : ∀ x ∈ s, x < 256) (hv : validUtf8 s = true) :
+    byteDetok cfg (byteTokenize cfg s ign) false = some s := by
+  unfold byteDetok
+  simp only [byteTokenize, hp, hsf, List.nil_append, List.append_nil]
+  rw [byteDetok_text cfg ho s ign hs]
+  simp [hv]
+
+/-! ### character tokenizer -/
+
+/-- exactly one id per character (cluster) and per special occurrence, plus prefix and suffix -/
+theorem charTokenize_length (cfg : CharCfg) (pieces : List (Sum (List (List Nat)) Nat)) :
+    (charTokenize cfg pieces).length =
+      cfg.sp.prefixIds.length +
+      (pieces.map (fun p => match p with | Sum.inl cl => cl.length | Sum.inr _ => 1)).sum +
+      cfg.sp.suffixIds.length := by
+  unfold charTokenize
+  simp only [List.length_append, List.length_flatMap]
+  congr 2
+  apply congrArg
+  apply List.map_congr_left
+  intro p _
+  cases p <;> simp
+
+theorem natIdxOf_some {l : List Nat} {x i : Nat} (h : natIdxOf l x = some i) : l[i]? = some x ∧ i < l.length := by
+  unfold natIdxOf at h
+  simp only at h
+  split at h
+  · rename_i hlt
+    injection h with h; subst h
+    exact ⟨by rw [List.getElem?_eq_getElem hlt]; simp [List.getElem_idxOf], hlt⟩
+  · simp at h
+
+theorem natIdxOf_mem {l : List Nat} {x : Nat} (h : x ∈ l) : ∃ i, natIdxOf l x = some i := by
+  unfold natIdxOf
+  have := List.idxOf_lt_length_of_mem h
+  simp [this]
+
+/-- a character is mapped to the unknown id exactly when it is not a single code point of the alphabet -/
+theorem charId_regular_iff (cfg : CharCfg) (hunk : cfg.alphabet.length ≤ cfg.unkId) (cl : List Nat) :
+    charId cfg cl < cfg.alphabet.length ↔ ∃ c, cl = [c] ∧ c ∈ cfg.alphabet := by
+  constructor
+  · intro h
+    match cl, h with
+    | [c], h =>
+      simp only [charId] at h
+      cases hi : natIdxOf cfg.alphabet c with
+      | none => simp [hi] at h; omega
+      | some i =>
+        have := (natIdxOf_some hi).1
+        exact ⟨c, rfl, List.mem_of_getElem? this⟩
+    | [], h => simp [charId] at h; omega
+    | _ :: _ :: _, h => simp [charId] at h; omega
+  · rintro ⟨c, rfl, hc⟩
+    obtain ⟨i, hi⟩ := natIdxOf_mem hc
+    simp [charId, hi, (natIdxOf_some hi).2]
+
+theorem charId_unk (cfg : CharCfg) (cl : List Nat) (h : ¬ ∃ c, cl = [c] ∧ c ∈ cfg.alphabet) : charId cfg cl = cfg.unkId := by
+  match cl with
+  | [c] =>
+    simp only [charId]
+    cases hi : natIdxOf cfg.alphabet c with
+    | none => rfl
+    | some i => exact absurd ⟨c, rfl, List.mem_of_getElem? (natIdxOf_some hi).1⟩ h
+  | [] => rfl
+  | _ :: _ :: _ => rfl
+
+/-- **texts over the alphabet round-trip exactly** -/
+theorem charDetok_regular (cfg : CharCfg) (ign : Bool) (clusters : List (List Nat))
+    (h : ∀ cl ∈ clusters, ∃ c, cl = [c] ∧ c ∈ cfg.alphabet) :
+    charDetok cfg ign (clusters.map (charId cfg)) = some (clusters.flatten.flatMap utf8) := by
+  induction clusters with
+  | nil => rfl
+  | cons cl cls ih =>
+    obtain ⟨c, rfl, hc⟩ := h cl List.mem_cons_self
+    have ih := ih (fun x hx => h x (List.mem_cons_of_mem _ hx))
+    obtain ⟨i, hi⟩ := natIdxOf_mem hc
+    simp [charDetok, charId, hi, (natIdxOf_some hi).1, ih]
+
+theorem char_roundtrip (cfg : CharCfg) (hp : cfg.sp.prefixIds = []) (hsf : cfg.sp.suffixIds = []) (ign : Bool)
+    (clusters : List (List Nat)) (h : ∀ cl ∈ clusters, ∃ c, cl = [c] ∧ c ∈ cfg.alphabet) :
+    charDetok cfg ign (charTokenize cfg [Sum.inl clusters]) = some (clusters.flatten.flatMap utf8) := by
+  simp only [charTokenize, hp, hsf, List.nil_append, List.append_nil, List.flatMap_cons, List.flatMap_nil]
+  exact charDetok_regular cfg ign clusters h
+
+/-! non-vacuity -/
+example : (mkByteCfg false [[60,112,62]] none [60,112,62] [[60,112,62]] []).isSome = true := by decide
+example : splitInput { tokens := [[60,112,62]], offset := 256, padId := 256, prefixIds := [], suffixIds := [] }
+    [97, 60, 112, 62, 60, 112] false = [.regular [97], .special 0 [60,112,62], .regular [60,112]] := by decide
+
 end Tu.C01
